@@ -1,11 +1,12 @@
 (* Extraction of the executable model to OCaml.  ExtrOcamlBasic only: bool, option, unit, list,
    prod, sumbool, sumor map to OCaml's own types; N, positive, nat, string stay extracted inductives. *)
 Require Import ExtrOcamlBasic.
-From DNS Require Import Model.Dec Model.Enc Model.Values.
+From DNS Require Import Model.Dec Model.Enc Model.Values Spec.Wire.
 Extraction Language OCaml.
 Extraction "model.ml"
   dec_Dns dec_Flags dec_Question dec_RR dec_DomainName dec_Type dec_Class dec_QType dec_QClass
   enc_Dns enc_Flags enc_Question enc_RR enc_DomainName enc_code
+  spec_Dns spec_Flags spec_Question spec_RR spec_DomainName
   rr_get_ttl rr_get_class struct_encode_types
   Opcode_table RCode_table Class_table Type_table QType_table QClass_table EDNSOptionCode_table
   AlgorithmType_table DigestType_table SSHFPAlgorithm_table SSHFPType_table AFSDBSubtype_table
